@@ -152,7 +152,13 @@ def build_harness(variant='cache'):
     m = re.search(r'cap(\d+)', variant)
     if m:
         flags.append('-DCONFIG_SX127X_MAX_PACKET_SIZE=' + m.group(1))
-    r = sh(['gcc'] + flags + [os.path.join(ROOT, 'harness', 'sxh.c'), os.path.join(REPO, 'src', 'sx127x.c'), '-lm', '-o', out])
+    # the driver is compiled on its own so that its memcpy calls can be checked against the
+    # sub-object they touch (harness/memcheck.h)
+    obj = out + '_drv.o'
+    r = sh(['gcc'] + flags + ['-include', os.path.join(ROOT, 'harness', 'memcheck.h'), '-c', os.path.join(REPO, 'src', 'sx127x.c'), '-o', obj])
+    if r.returncode != 0:
+        return None, r.stderr[-2000:]
+    r = sh(['gcc'] + flags + [os.path.join(ROOT, 'harness', 'sxh.c'), obj, '-lm', '-o', out])
     if r.returncode != 0:
         return None, r.stderr[-2000:]
     return out, None
